@@ -144,6 +144,9 @@ func (e *Engine) doCall(f *frame, st *State, cc *ssa.CallCommon, args []Val, fnv
 		return e.callFunc(f, st, callee, nil, args, sig, reach, pos)
 	}
 	if fv, ok := fnv.(FuncV); ok {
+		if fv.Nil != "" {
+			reach = and(reach, not(fv.Nil)) // calling a nil function value panics: execution only continues when it is not nil
+		}
 		return e.callFunc(f, st, fv.Fn, fv.Bind, args, sig, reach, pos)
 	}
 	// range-over-func: seq(yield) is a loop whose body is the synthetic yield closure
